@@ -40,6 +40,15 @@ CHECKS.update({
          "the gopher-lua VM is outside the encoding: listeners are Go closures standing for what luahost hands to the broker; Lua error handling, statePool concurrency and 'wrong kind of value' are not decided", "4 C17"),
 })
 
+CHECKS.update({
+ "C09": ("a delivery racing with the removal of the same message on the memory store (with and without the size enforcer goroutine), explored under run-to-block scheduling plus a bounded number of pre-emptions inserted before channel sends and mutex acquisitions: no panic in any goroutine, no deadlock, presence <=> not removed, store usable afterwards, ids unique",
+         "context-bounded (<= 2, thorough 3 pre-emptions), 3 client goroutines + enforcer, one race scenario; goroutines are atomic between visible operations, so Go-memory-model data races are NOT detected (no race detector in this technique); file store locking not covered (no FS model); schedule counterexamples are confirmed natively by repetition", "4 C09"),
+ "C15": ("real msghub.Hub with its Start loop and real msgListenerV2 monitors: k symbolic actions (store in two mailboxes, delete, monitors joining with/without filter, a client reading, a monitor disconnecting with events buffered); each monitor's queue == retained history + later events for its filter, once, in order; a disconnected monitor is dropped",
+         "k <= 3 (thorough 4) actions, history length 0..3; the hub goroutine runs whenever the harness waits (one schedule per action sequence); filling the 100-slot buffers (a slow listener stalling the hub) is outside the bound; WebSocket I/O is represented by the channel operations WSReader/WSWriter perform", "4 C15"),
+ "C19": ("real SMTP and POP3 accept loops + sessions over a scripted listener; symbolic gates hold the session at its start / mid-DATA / before QUIT while shutdown is requested and Drain is called: Drain waits, the message in progress is stored and acknowledged, POP3 deletions are applied, nothing is accepted after close; Hub.Start returns on cancel and late events neither panic nor deadlock; scanner Start/Join is C12",
+         "one connection per server, schedule choices limited to the harness-placed gates on top of run-to-block; real sockets, timedExit, the web server and cmd/inbucket wiring are outside", "4 C19"),
+})
+
 NOT_APPLICABLE = {}
 
 def main():
@@ -77,7 +86,7 @@ def main():
         "engines": [{"name": "gosmt", "path": "/verif/engine", "serves_properties": sorted(CHECKS), "kind_free_text": "go/ssa symbolic executor with state merging; SMT-LIB2 QF_BV queries decided by z3 5.1 (z3-new); counterexample and cover models replayed natively through `go test -overlay`"}],
         "checks": checks,
         "not_applicable": na,
-        "notes": "Every check exits 0 = all obligations unsat within the stated bounds and all cover points satisfiable and natively reached; 1 = replayed violation not listed in known_findings.json; 2 = broken (unsupported code, undecided query, vacuous harness, model that does not reproduce). fix: commits in /repo: 288c728 (C03), 7d87c36 (C06), 1c28c1b (C07), 3e84664 (C08), ab07dc1 (C14), 67b69e1 (C16).",
+        "notes": "Every check exits 0 = all obligations unsat within the stated bounds and all cover points satisfiable and natively reached; 1 = replayed violation not listed in known_findings.json; 2 = broken (unsupported code, undecided query, vacuous harness, model that does not reproduce). fix: commits in /repo: 288c728 (C03), 7d87c36 (C06), 1c28c1b (C07), 3e84664 (C08), ab07dc1 (C14), 67b69e1 (C16), 4aea936+51ad804 (C15), 9975e1e+e3d37c1 (C19), eb0564f (C09).",
     }
     json.dump(m, open('/verif/MANIFEST.json', 'w'), indent=1)
     print("checks:", [c['property_id'] for c in checks], "n/a:", len(na))
